@@ -425,11 +425,9 @@ func (a *scriptActor) doOp(ctx vivid.ActorContext, m umsg) {
 		if m.Arg != "" {
 			fmt.Sscan(m.Arg, &n)
 		}
+		_ = before
 		ctx.Unstash(n)
-		if n > before {
-			n = before
-		}
-		// n: how many messages the call had to give back (the request, capped by what was stashed); v: what is left
+		// n: how many messages the call asked for (the monitors cap it by what THEY know to be stashed); v: what is left
 		x.ev(map[string]any{"e": "Unstashed", "a": a.name, "n": n, "v": ctx.StashCount()})
 	case "kill", "pkill":
 		if r := x.ref(m.Arg); r != nil {
